@@ -32,9 +32,9 @@ def cases(tier, seed):
     cs = []
     for name in walk.OP_NAMES:
         for v in range(len(walk.VIEWS)):
-            for rep in range(2 if not T else 12):
+            for rep in range(6 if not T else 30):
                 cs.append({'gen': 'table', 'op': name, 'view0': v, 'reps': 3, 'dtype': 'f64' if rep % 3 else ['c128', 'f32', 'f64'][(v + rep) % 3]})
-    for i in range(32 if not T else 480):
+    for i in range(100 if not T else 1500):
         cs.append({'gen': 'walk', 'steps': rng.choice((30, 60, 100)) if not T else rng.choice((30, 60, 120, 200)), 'dtype': ['f64', 'f64', 'c128', 'f32'][i % 4], 'views': i % 2 == 0})
     return cs
 
